@@ -419,6 +419,7 @@ func cmdCheck(args []string) int {
 		defer pprof.StopCPUProfile()
 	}
 	solversUsed := map[string]bool{}
+	staticIDs, reachedIDs := map[string][]string{}, map[string]int{}
 	var hev []harnessEvidence
 	var cands []ssaexec.Violation
 	inconclusive := []string{}
@@ -483,9 +484,8 @@ func cmdCheck(args []string) int {
 			if strings.HasSuffix(id, "?") || !strings.HasPrefix(id, *prop+"/") {
 				continue // optional assertion, or an assertion of a shared scenario that belongs to another property
 			}
-			if res.Asserts[id] == 0 {
-				inconclusive = append(inconclusive, h.Name+": vacuous: assertion "+id+" never reached on any feasible path")
-			}
+			staticIDs[id] = append(staticIDs[id], h.Name)
+			reachedIDs[id] += res.Asserts[id]
 		}
 		for _, pc := range res.SamplePCs {
 			if len(samples) < 8 {
@@ -503,6 +503,12 @@ func cmdCheck(args []string) int {
 	if len(hev) == 0 {
 		fmt.Printf("INCONCLUSIVE property=%s no harness selected for tier %s\n", *prop, *tier)
 		return 2
+	}
+	// vacuity: every assertion present in the harness code must have been reached on a feasible path of some harness
+	for id, hs := range staticIDs {
+		if reachedIDs[id] == 0 && *only == "" {
+			inconclusive = append(inconclusive, "vacuous: assertion "+id+" (in "+strings.Join(hs, ",")+") never reached on any feasible path")
+		}
 	}
 
 	// ---- replay candidates natively
